@@ -7,6 +7,9 @@ TARGETS = ['clastic.errors.HTTPException.__init__', 'clastic.errors.HTTPExceptio
            'clastic.errors.HTTPException.to_xml', 'clastic.errors.ErrorHandler.render_error',
            'clastic.application.default_render_error#verify']
 CANARIES = [
+    {'name': 'render_error-takes-first-preference', 'file': 'clastic/errors.py',
+     'old': "        best_match = request.accept_mimetypes.best_match(MIME_SUPPORT_MAP)\n        _error.adapt(best_match)\n        return _error\n\n    def uncaught_to_response",
+     'new': "        best_match = request.accept_mimetypes.best\n        _error.adapt(best_match)\n        return _error\n\n    def uncaught_to_response"},
     {'name': 'escape-dropped-in-escaped-dict', 'file': 'clastic/errors.py',
      'old': "                ret[k] = html_escape(v, True)\n", 'new': "                ret[k] = v\n"},
     {'name': 'repr-fallback-unescaped', 'file': 'clastic/errors.py',
